@@ -82,7 +82,7 @@ func genCase(t *rapid.T) copyx.Case {
 	if vt.Thorough() {
 		max = 24
 	}
-	c := copyx.GenBase(t, gen.DAGOpts{MaxNodes: max, Referrers: rapid.Bool().Draw(t, "referrers")}, srcKinds, dstKinds)
+	c := copyx.GenBase(t, gen.DAGOpts{MaxNodes: max, Referrers: rapid.Bool().Draw(t, "referrers"), Wide: rapid.Bool().Draw(t, "wide")}, srcKinds, dstKinds)
 	d := gen.Build(c.Specs)
 	c.API = rapid.SampledFrom([]string{"copygraph", "copy", "extcopygraph"}).Draw(t, "api")
 	c.Callbacks = rapid.Bool().Draw(t, "callbacks")
@@ -90,9 +90,31 @@ func genCase(t *rapid.T) copyx.Case {
 		c.Pre = copyx.GenPre(t, d, d.Reach(c.Root, true), c.Root)
 	}
 	ss := sites(&c, d)
+	// sites on nodes that several parents inside the copied graph share: a failure
+	// there is observed by parents that did not dispatch the node themselves
+	fanin := map[int]int{}
+	for id := range d.Reach(c.Root, true) {
+		seen := map[int]bool{}
+		for _, ed := range d.Nodes[id].Edges {
+			if !ed.Foreign && !seen[ed.To] {
+				seen[ed.To] = true
+				fanin[ed.To]++
+			}
+		}
+	}
+	var sharedSites []site
+	for _, s := range ss {
+		if fanin[s.Node] >= 2 {
+			sharedSites = append(sharedSites, s)
+		}
+	}
 	nf := rapid.IntRange(1, 3).Draw(t, "nFaults")
 	for i := 0; i < nf; i++ {
-		s := rapid.SampledFrom(ss).Draw(t, "site")
+		pool := ss
+		if len(sharedSites) > 0 && rapid.Bool().Draw(t, "onShared") {
+			pool = sharedSites
+		}
+		s := rapid.SampledFrom(pool).Draw(t, "site")
 		f := inst.Fault{Side: s.Side, Op: s.Op, Node: s.Node, When: rapid.SampledFrom(s.Whens).Draw(t, "when")}
 		f.Kind = "error"
 		if rapid.IntRange(0, 3).Draw(t, "cancel") == 0 {
